@@ -9,7 +9,7 @@
    lo <= hi, at least one grid point, strictly increasing, all inside [lo, hi].
    [nthR i l] is [nth i l 0]. *)
 From Coq Require Import ZArith Reals List Bool.
-From Verif Require Import Base.Num Base.Vec C14.Model C14.Proofs.
+From Verif Require Import Base.Num Base.Vec C14.Model C14.Proofs C14.ProofsIndex.
 Import ListNotations.
 Local Open Scope R_scope.
 
@@ -79,3 +79,49 @@ Proof. exact cell_sizes_single. Qed.
 
 Example a_valid_axis_exists : valid (mkAxis 0 3 [1/2; 1; 5/2]).
 Proof. exact example_axis_valid. Qed.
+
+(* ------------------------------------------------------------------ *)
+(* T1. index(p): for every valid axis (any number of points, any spacing) and
+   every point x of the interval, the returned integer k = cell_of ax x is a
+   cell number (0 <= k < n) and x lies in that cell  [b_k, b_(k+1)]. *)
+Theorem index_returns_the_containing_cell : forall (ax : axis R) (x : R),
+  valid ax -> a_lo ax <= x -> x <= a_hi ax ->
+  index_axis ax x = Z.of_nat (cell_of ax x) /\
+  (cell_of ax x < length (a_cs ax))%nat /\
+  nthR (cell_of ax x) (bdry_vec ax) <= x <= nthR (S (cell_of ax x)) (bdry_vec ax).
+Proof. exact index_axis_spec. Qed.
+Print Assumptions index_returns_the_containing_cell.
+
+(* floating=True: f = k + (distance from the left boundary of cell k) / (width of cell k),
+   stated without division:  b_k + (f - k) * (b_(k+1) - b_k) = x  and  k <= f <= k + 1,
+   where k is the integer index of the same point. *)
+Theorem floating_index_is_the_fractional_position : forall (ax : axis R) (x : R),
+  valid ax -> a_lo ax <= x -> x <= a_hi ax ->
+  let k := cell_of ax x in let f := findex_axis ax x in
+  nthR k (bdry_vec ax) + (f - INR k) * (nthR (S k) (bdry_vec ax) - nthR k (bdry_vec ax)) = x /\
+  INR k <= f <= INR k + 1.
+Proof. exact findex_spec. Qed.
+Print Assumptions floating_index_is_the_fractional_position.
+
+(* which cell, exactly: strictly inside cell j -> j; on edge j -> the cell to the
+   right of the edge, except for the last edge (-> last cell). *)
+Theorem index_interior_point : forall (ax : axis R) (x : R) (j : nat),
+  valid ax -> a_lo ax <= x -> x <= a_hi ax -> sincr (bdry_vec ax) ->
+  (j < length (a_cs ax))%nat -> nthR j (bdry_vec ax) < x < nthR (S j) (bdry_vec ax) ->
+  cell_of ax x = j.
+Proof. exact cell_of_interior_all. Qed.
+Theorem index_edge_point : forall (ax : axis R) (x : R) (j : nat),
+  valid ax -> sincr (bdry_vec ax) -> (j <= length (a_cs ax))%nat -> x = nthR j (bdry_vec ax) ->
+  cell_of ax x = if (j =? length (a_cs ax))%nat then (length (a_cs ax) - 1)%nat else j.
+Proof. exact cell_of_edge_all. Qed.
+Print Assumptions index_edge_point.
+
+(* N-d: membership in the set is checked first (TypeError outside), then every axis
+   is treated independently by the 1-d rule above. *)
+Theorem index_is_axiswise : forall (p : list (axis R)) (x : list R),
+  (in_set p x = true -> index p x = Ok (map2 index_axis p x) /\ findex p x = Ok (map2 findex_axis p x)) /\
+  (in_set p x = false -> index p x = TypeErr /\ findex p x = TypeErr).
+Proof. exact index_nd. Qed.
+Theorem in_set_means_inside_every_interval : forall (p : list (axis R)) (x : list R),
+  in_set p x = true <-> Forall2 (fun ax v => a_lo ax <= v <= a_hi ax) p x.
+Proof. exact in_set_spec. Qed.
